@@ -6,7 +6,7 @@
 ID=$1; PROP=$2; TIER=${3:-quick}; SLOT=${4:-0}
 WT=/tmp/seed/recheck$SLOT
 if [ ! -d "$WT" ]; then git -C /repo worktree add --detach "$WT" HEAD >/dev/null 2>&1 || exit 2; fi
-cd "$WT" && git checkout -q -- . && git checkout -q --detach $(git -C /repo rev-parse HEAD) 2>/dev/null
+cd "$WT" && git checkout -q -- . && git clean -fdq && git checkout -q --detach $(git -C /repo rev-parse HEAD) 2>/dev/null
 git apply /verif/seeded/$ID/patch.diff || { echo "$ID $PROP PATCH-DOES-NOT-APPLY"; exit 2; }
 cd /verif
 EV=/tmp/semaverif-scratch-evidence/recheck-$ID
@@ -24,4 +24,4 @@ PY
 )
 TOTAL=$(grep -E '^(VIOLATED|HELD|INCONCLUSIVE) ' /tmp/seeded_recheck.$ID.$PROP.log | tail -1 | grep -o 'unlisted_violations=[0-9]*')
 echo "$ID $PROP tier=$TIER exit=$RC $TOTAL [$KINDS]"
-(cd "$WT" && git checkout -q -- .)
+(cd "$WT" && git checkout -q -- . && git clean -fdq -e SEEDED -e TASK.md)
